@@ -104,7 +104,19 @@ EvFile == /\ Ev("file")
                       [] OTHER -> gens[E.g].ref.size = E.delivered /\ Same(J(G!RFin(gens[E.g].ref, TRUE, FALSE)), E.r),
                     <<l, "file", E.what>>)
          /\ UNCHANGED gens /\ Done
-Next == EvStream \/ EvFile \/ EvEasy \/ EvRealZeros \/ EvSame \/ EvNew \/ EvZeros \/ EvClone \/ EvReset \/ EvUpd \/ EvFix \/ EvFin
+(* libfuzzy's own test vectors against the SPECIFICATION: flags 1 = truncated, 2 = not truncated,
+   4 = the expected text is the run-collapsed hash *)
+EvAnchor == /\ Ev("anchor")
+            /\ LET g == gens[E.g]
+                   shape(r) == [k |-> r.log, a |-> r.b1, b |-> r.b2]
+                   txt(r) == T!Format(IF (E.flags \div 4) % 2 = 1 THEN T!NormalizeHash(shape(r)) ELSE shape(r))
+                   rt == G!GFin(g, TRUE, TRUE)
+                   rn == G!GFin(g, FALSE, TRUE)
+               IN Expect(/\ (E.flags % 2 = 1 => (rt.err = "none" /\ txt(rt) = E.want))
+                         /\ ((E.flags \div 2) % 2 = 1 => (rn.err = "none" /\ txt(rn) = E.want)),
+                         <<l, "anchor", E.file, txt(rt), txt(rn)>>)
+            /\ UNCHANGED gens /\ Done
+Next == EvAnchor \/ EvStream \/ EvFile \/ EvEasy \/ EvRealZeros \/ EvSame \/ EvNew \/ EvZeros \/ EvClone \/ EvReset \/ EvUpd \/ EvFix \/ EvFin
 Spec == Init /\ [][Next]_vars
 Progress == Mark(l)
 =============================================================================
